@@ -125,3 +125,11 @@ package p2p
 //@   modifies elems(uint8), ghost(mutexHeld)
 //@ func (*MultiConn).startReceiveService
 //@   loop 1 iterensures[nodrop] typeis(msg, *Packet) && dyn(msg, *Packet).StreamId != heartbeatTopic ==> (let pk = dyn(msg, *Packet) in let st = stream in (pk.Eof ? len(st.msgAssembler) == 0 : len(st.msgAssembler) == athead(len(st.msgAssembler)) + len(pk.Bytes)))
+
+// ---- C18: every topic of a connection reassembles into a buffer of its own ------------------------------------------
+// Packets of different topics interleave on the wire; a half-assembled message of one topic stays in its stream's
+// assembler while packets of other topics arrive. Each stream created for a connection therefore starts with an
+// assembler allocated for that stream alone (allocated in the same loop iteration as the stream), never a block shared
+// between topics.
+//@ func (*P2P).NewStreams
+//@   loop 1 iterensures[ownassembler] i != lib.Topic_HEARTBEAT ==> indom(streams, i) && streams[i] != nil && freshiter(streams[i]) && freshiter(streams[i].msgAssembler)
